@@ -78,6 +78,7 @@ class Gen:
       "mesh": False,
       "dense_contacts": p(0.5),
       "eq_many": p(0.15),  # more equalities than coordinates (size relations such as neq > nq)
+      "pile": p(0.08),  # a cluster of small free bodies: many broadphase candidates, many contacts, many trees
       "tiny": p(0.15),  # one shallow tree: nq, nv small relative to nu, na, neq, nsensordata, nuserdata
     }
     if features:
@@ -229,6 +230,20 @@ class Gen:
       else:
         z = self.u(0.3, 0.9)
       wb += self._body(t, 0, [x, self.u(-0.15, 0.15), z], rj, "    ")
+    if ft["pile"] and not ft["tiny"]:
+      n = int(r.integers(6, 17))
+      cols = int(r.integers(1, 4))
+      for k in range(n):
+        b = len(self.bodies)
+        self.bodies.append((f"b{b}", ntree + k))
+        px, py, pz = 0.9 + 0.13 * (k % cols) + self.u(-0.01, 0.01), self.u(-0.02, 0.02), 0.07 + 0.125 * (k // cols)
+        gt = self.ch(["sphere", "sphere", "box"])
+        gs = "0.06" if gt == "sphere" else "0.055 0.055 0.055"
+        wb += f'    <body name="b{b}" pos="{_f([px, py, pz])}">\n      <freejoint name="j{b}_0"/>\n      <geom name="g{b}_0" type="{gt}" size="{gs}"/>\n      <site name="s{b}" size="0.01"/>\n    </body>\n'
+        self.joints.append((f"j{b}_0", "free", b))
+        self.geoms.append(f"g{b}_0")
+        self.sites.append((f"s{b}", b))
+      ntree += n
     self.ntree = ntree
     hs = [j for j in self.joints if j[1] in ("hinge", "slide")]
 
@@ -441,6 +456,19 @@ def random_opt(seed, integrators=("euler", "euler", "implicitfast", "implicit", 
     opt["disableflags"] = dis
     opt["enableflags"] = int(ch([0, 0, ENBL["ENERGY"]]))
   return opt
+
+
+def random_mopt(seed):
+  """Warp-side options (exist only on mujoco_warp's Option): broadphase algorithm and filter, solver loop form."""
+  r = _rng.gen("mopt", seed)
+  out = {}
+  if r.random() < 0.5:
+    out["broadphase"] = int(r.integers(0, 3))
+  if r.random() < 0.3:
+    out["broadphase_filter"] = int(r.integers(0, 16))
+  if r.random() < 0.4:
+    out["graph_conditional"] = bool(r.random() < 0.5)
+  return out
 
 
 def _keyframes(r, mjm, n):
